@@ -54,6 +54,8 @@ import (
 type c11vStatus struct {
 	URL string `json:"url"`
 	Idx string `json:"idx"`
+	// Mal: how the entry is malformed: "" | noid | idislist | notype | othertype | nopurpose | suspension | badurl
+	Mal string `json:"mal,omitempty"`
 }
 
 type c11vOp struct {
@@ -75,6 +77,8 @@ type c11vOp struct {
 	HostKind string `json:"hostkind,omitempty"` // ok | badsig | fail
 	// StoreFault: the revocation store cannot be read during this verification
 	StoreFault bool `json:"storefault,omitempty"`
+	// NoSLCtx: the credential does not list the StatusList2021 JSON-LD context
+	NoSLCtx bool `json:"noslctx,omitempty"`
 	// At: verify with an explicit validAt = now + At minutes (0: validAt == nil). The credential is issued one hour ago and
 	// does not expire; revocations are dated at the moment they are built.
 	At int `json:"at,omitempty"`
@@ -301,6 +305,8 @@ func c11vClass(err error) string {
 		return "err:validation:proof"
 	case strings.Contains(err.Error(), "verif: revocation store unavailable"):
 		return "err:store"
+	case strings.Contains(err.Error(), "invalid credentialStatus"):
+		return "err:validation:status"
 	case strings.Contains(err.Error(), "credential ID must start with issuer"), strings.Contains(err.Error(), "'ID' is required"):
 		return "err:validation"
 	}
@@ -325,10 +331,32 @@ func (w *c11vWorld) buildCredential(op c11vOp) (*vc.VerifiableCredential, error)
 	if len(op.Statuses) > 0 {
 		var sts []interface{}
 		for i, s := range op.Statuses {
-			sts = append(sts, map[string]interface{}{"id": fmt.Sprintf("%s#%s-%d", s.URL, s.Idx, i), "type": revocation.StatusList2021EntryType,
-				"statusPurpose": "revocation", "statusListIndex": s.Idx, "statusListCredential": s.URL})
+			url := s.URL
+			if s.Mal == "badurl" {
+				url = "lists.example/not-a-request-uri"
+			}
+			e := map[string]interface{}{"id": fmt.Sprintf("%s#%s-%d", url, s.Idx, i), "type": revocation.StatusList2021EntryType,
+				"statusPurpose": "revocation", "statusListIndex": s.Idx, "statusListCredential": url}
+			switch s.Mal {
+			case "noid":
+				delete(e, "id")
+			case "idislist":
+				e["id"] = url
+			case "notype":
+				delete(e, "type")
+			case "othertype":
+				e["type"] = "OtherStatus"
+			case "nopurpose":
+				delete(e, "statusPurpose")
+			case "suspension":
+				e["statusPurpose"] = "suspension"
+			}
+			sts = append(sts, e)
 		}
 		m["credentialStatus"] = sts
+		if op.NoSLCtx {
+			m["@context"] = []interface{}{vc.VCContextV1URI().String(), credential.NutsV1Context}
+		}
 	}
 	raw, _ := json.Marshal(m)
 	return vc.ParseVerifiableCredential(string(raw))
@@ -492,8 +520,16 @@ func (g *c11vGen) choose() c11vOp {
 		if r.Intn(3) == 0 {
 			n := 1 + r.Intn(2)
 			for j := 0; j < n; j++ {
-				op.Statuses = append(op.Statuses, c11vStatus{URL: []string{"https://lists.example/1", "https://lists.example/2", "https://lists.example/3"}[r.Intn(3)], Idx: strconv.Itoa(r.Intn(4))})
+				st := c11vStatus{URL: []string{"https://lists.example/1", "https://lists.example/2", "https://lists.example/3"}[r.Intn(3)], Idx: strconv.Itoa(r.Intn(4))}
+				if r.Intn(5) == 0 { // other spellings / unparsable / negative / out-of-range indexes
+					st.Idx = []string{"+" + st.Idx, "0" + st.Idx, "-1", "-0", "abc", "", "1_0", " 1", "9223372036854775808", "131072", "99999999999"}[r.Intn(11)]
+				}
+				if r.Intn(6) == 0 {
+					st.Mal = []string{"noid", "idislist", "notype", "othertype", "nopurpose", "suspension", "badurl"}[r.Intn(7)]
+				}
+				op.Statuses = append(op.Statuses, st)
 			}
+			op.NoSLCtx = r.Intn(15) == 0
 		}
 		return op
 	}
